@@ -101,7 +101,7 @@ func minimalArgs(tool, cfgPath, pidFile string) map[string]interface{} {
 	case "config_diff":
 		return map[string]interface{}{"content": mcpConfig}
 	case "config_apply":
-		return map[string]interface{}{"content": mcpConfig, "mode": "preview_only", "reason": "verif"}
+		return map[string]interface{}{"content": mcpConfig, "mode": "preview_only"}
 	case "management_endpoint_upsert":
 		return map[string]interface{}{"application": "app2", "endpoint_name": "ep2", "route": "/hooks/b", "reason": "verif", "mode": "preview_only"}
 	case "management_endpoint_delete":
@@ -211,7 +211,7 @@ func cmdMCP(args []string) error {
 						emit(rec)
 					}
 					for _, tool := range mcpTools {
-						variants := []string{"minimal", "hostile-path", "symlink-dotdot-path", "actor-mismatch", "actor-case-variant", "actor-prefix", "actor-superstring", "unknown-key"}
+						variants := []string{"minimal", "hostile-path", "symlink-dotdot-path", "actor-mismatch", "actor-case-variant", "actor-prefix", "actor-superstring", "unknown-key", "write-fails", "write-ok"}
 						for _, variant := range variants {
 							if err := reset(); err != nil {
 								return err
@@ -241,6 +241,24 @@ func cmdMCP(args []string) error {
 								a["actor"] = "ops@example.evil"
 							case "unknown-key":
 								a["definitely_not_a_key"] = true
+							case "write-ok":
+								// a config-writing tool really writes (the minimal call only previews): the configured file changes,
+								// nothing else appears next to it
+								if tool == "config_apply" {
+									a["mode"] = "write_only"
+									a["content"] = mcpConfig + "\n# edited through the tool\n"
+								}
+								if strings.HasPrefix(tool, "management_endpoint_") {
+									a["mode"] = "write_only"
+								}
+							case "write-fails":
+								// the configured path cannot be replaced (it is a non-empty directory): whatever a config-writing
+								// tool stages next to it must be gone when the call has failed
+								os.Remove(cfgPath)
+								os.MkdirAll(filepath.Join(cfgPath, "occupied"), 0o755)
+								if tool == "config_apply" || strings.HasPrefix(tool, "management_endpoint_") {
+									a["mode"] = "write_only"
+								}
 							}
 							cfgBefore, _ := os.ReadFile(cfgPath)
 							dbBefore := dbKey(dbPath)
@@ -286,6 +304,23 @@ func cmdMCP(args []string) error {
 							if audits == nil {
 								audits = []map[string]interface{}{}
 							}
+							// anything in the configuration's directory (and the foreign one) that was not there before the call
+							var strays []string
+							for _, d := range []string{filepath.Dir(cfgPath), filepath.Dir(foreign)} {
+								ents, _ := os.ReadDir(d)
+								for _, e := range ents {
+									if n := e.Name(); n != "Hookaidofile" && n != "link" && n != "sub" {
+										strays = append(strays, n)
+										os.RemoveAll(filepath.Join(d, n))
+									}
+								}
+							}
+							if strays == nil {
+								strays = []string{}
+							}
+							if variant == "write-fails" {
+								os.RemoveAll(cfgPath)
+							}
 							cfgAfter, _ := os.ReadFile(cfgPath)
 							foreignAfter, _ := os.ReadFile(foreign)
 							_, pidErr := os.Stat(pidFile)
@@ -294,7 +329,7 @@ func cmdMCP(args []string) error {
 							}
 							rec := map[string]interface{}{"k": "call", "tool": tool, "variant": variant, "isError": isErr, "rpcError": rpcErr, "text": text, "audit": audits,
 								"cfgChanged": !bytes.Equal(cfgBefore, cfgAfter), "dbChanged": dbKey(dbPath) != dbBefore, "foreignChanged": string(foreignAfter) != "# foreign file\n",
-								"pidFileExists": pidErr == nil}
+								"pidFileExists": pidErr == nil, "strays": strays}
 							for k, v := range base {
 								rec[k] = v
 							}
